@@ -84,10 +84,15 @@ func clausesMention(c *Contract, p string) bool {
 		}
 	}
 	for _, l := range c.Loops {
-		for _, cl := range l.Invariants {
+		for _, cl := range append(append([]*Clause{}, l.Invariants...), l.Monotone...) {
 			if hasProp(cl.Props, p) {
 				return true
 			}
+		}
+	}
+	for _, cs := range c.CallSites {
+		if cs.Clause != nil && hasProp(cs.Clause.Props, p) {
+			return true
 		}
 	}
 	return false
